@@ -16,6 +16,7 @@ structure PulseSummary where
   maxAbsDetR : Rat := 0   -- max(round(|det|, 6))
   maxDetR : Rat := 0      -- max(round(det, 6))
   minDetR : Rat := 0      -- min(round(det, 6))
+  finite : Bool := true   -- every amplitude and detuning sample is finite (no NaN / inf)
   deriving DecidableEq, Repr, Inhabited
 
 /-- What the scheduler may read from a `Pulse` (after duration adjustment). -/
@@ -379,7 +380,8 @@ def underRat (m : Option Rat) (x : Rat) : Bool :=
 
 /-- `Channel.validate_pulse` / `DMM.validate_pulse` on the oracle summary. -/
 def validatePulse (c : ChanState) (σ : PulseSummary) : Except Err Unit :=
-  if overRat c.cfg.maxAmp σ.maxAmp then .error .ampOverMax
+  if !σ.finite then .error .nonFinite      -- (repair of F31: NaN passed every `>` test)
+  else if overRat c.cfg.maxAmp σ.maxAmp then .error .ampOverMax
   else if overRat c.cfg.maxAbsDet σ.maxAbsDetR then .error .detOverMax
   else if 0 < σ.avgAmp ∧ σ.avgAmp < c.cfg.minAvgAmp then .error .avgAmpLow
   else if !c.cfg.isDmm then .ok ()
